@@ -235,6 +235,8 @@ def gen_terms(job, rng):
             yield from G.d1_bool(W)
         else:
             yield from G.d2(W)
+    elif g == "concat":
+        yield from G.concat_n(job["W"])
     elif g == "rules":
         yield from G.rule_instances(rng, tuple(job.get("widths", (1, 2, 3, 4, 8, 16, 32, 64))), job.get("per", 4))
     elif g == "rand":
